@@ -19,6 +19,7 @@ import os
 import re
 
 import vf
+import c04_api
 
 NOCUT = 1000000
 
@@ -113,7 +114,8 @@ def run_api(ctx):
         raise vf.MachineryError("C08 clock self-test failed: %s" % res["skipped"][:3])
     # ---- spec -> code ---------------------------------------------------------
     num = 6000 if thorough else 1200
-    behs = ctx.tlc_behaviours("Lease", "MC_LeaseDeleg.tla", "Sim_LeaseDeleg.cfg", num=num, depth=45, timeout=900)
+    behs = c04_api.sim_behaviours(ctx, "MC_LeaseDeleg.tla", "Sim_LeaseDeleg.cfg", num, 45,
+                                  {"now", "deleg", "dreply", "pub"})
     bl = deleg_behaviours(behs, "d")
     if len(bl) < num // 2:
         raise vf.MachineryError("only %d behaviours generated" % len(bl))
